@@ -1,10 +1,11 @@
 import S3V.Props.C05
 import S3V.Props.C06
 import S3V.Props.C10Sig
+import S3V.Spec.SigV4Verify
 /-!
 # Findings of C05 / C06 / C10 (signature clause): kernel-checked facts about concrete requests
 
-Outside the pass/fail gate. State of the code: after the repairs b7c08fd, 4011296, 10af2bf, d4ba65c.
+Outside the pass/fail gate. State of the code: after the repairs b7c08fd, 4011296, 10af2bf, d4ba65c, d453cd3.
 
 * OPEN deviation (counterexamples to the FULL statements): duplicate query names with unsorted values
   (`sigv4-dup-query-unsorted`, header and presigned path) — the only remaining obstacle.
@@ -134,6 +135,72 @@ theorem C05_verdict_iff_full_false : ¬ C05_verdict_iff_full := by
     ⟨dupAuth, b!"secret", ⟨2013, 5, 24, 0, 0, 0⟩, .unsigned, hchecks, rfl, rfl, rfl, hsig⟩
   rw [spec_signed_dup_query_refused] at hacc
   cases hacc
+
+/-! ### repaired (d453cd3): former class `sigv4-edge-whitespace-amz-header`
+
+`extract_amz_date` / `extract_amz_content_sha256` parse `trim_ows(val)`: a correctly signed request whose `x-amz-date` /
+`x-amz-content-sha256` line carries leading or trailing SP / HTAB (the canonical request trims them anyway) is no longer
+refused with InvalidRequest / XAmzContentSHA256Mismatch. Regression facts: the model, which mirrors the repaired code and
+agrees with it on the replayed witness (`corpus/sigv4e2e.txt`, `w-sigv4-edge-whitespace-amz-header`), parses and accepts. -/
+
+/-- the `x-amz-date` value of the corpus witness, HTAB before and SP after, is read as its timestamp -/
+theorem edge_blank_amz_date_parsed :
+    extractAmzDate [(b!"x-amz-date", b!"\t20171030T102620Z ")] = .ok (some ⟨2017, 10, 30, 10, 26, 20⟩) := by decide
+
+/-- all three payload modes are recognised with edge blanks -/
+theorem edge_blank_content_sha_parsed :
+    extractContentSha [(b!"x-amz-content-sha256", b!" UNSIGNED-PAYLOAD\t")] = .ok (some .unsignedPayload) ∧
+    extractContentSha [(b!"x-amz-content-sha256", b!"\t STREAMING-AWS4-HMAC-SHA256-PAYLOAD ")] = .ok (some .multipleChunks) ∧
+    extractContentSha [(b!"x-amz-content-sha256",
+      b!" e3b0c44298fc1c149afbf4c8996fb92427ae41e4649b934ca495991b7852b855 ")] =
+      .ok (some (.singleChunk b!"e3b0c44298fc1c149afbf4c8996fb92427ae41e4649b934ca495991b7852b855")) := by decide
+
+/-- `trim_ows` removes SP and HTAB only, and only at the edges: an inner blank still spoils the value -/
+theorem inner_blank_amz_date_refused :
+    extractAmzDate [(b!"x-amz-date", b!"20171030T 102620Z")] = .error .InvalidRequest ∧
+    extractContentSha [(b!"x-amz-content-sha256", b!"UNSIGNED PAYLOAD")] = .error .XAmzContentSHA256Mismatch := by decide
+
+def edgeHeaders (auth : Bytes) : List (Bytes × Bytes) :=
+  [(b!"authorization", auth), (b!"host", b!"h"), (b!"x-amz-content-sha256", b!" UNSIGNED-PAYLOAD\t"),
+   (b!"x-amz-date", b!"\t20130524T000000Z ")]
+
+def edgeSigned : List Bytes := [b!"host", b!"x-amz-content-sha256", b!"x-amz-date"]
+
+/-- the request with edge blanks around both headers, both of them signed, as the specification sees it -/
+def edgeSpecRequest : SigV4Spec.Request :=
+  { method := b!"GET", path := b!"/bkt/k", query := [], headers := edgeHeaders [], signedHeaders := edgeSigned,
+    payload := b!"UNSIGNED-PAYLOAD" }
+
+/-- the signature the specification defines for it (timestamp and payload line are the trimmed values) -/
+def edgeSpecSig : Bytes :=
+  SigV4Spec.signature shaId hmacMsg b!"secret" b!"20130524T000000Z" ⟨b!"20130524", b!"r", b!"s3"⟩ edgeSpecRequest
+
+def edgeAuthValue : Bytes :=
+  b!"AWS4-HMAC-SHA256 Credential=AK/20130524/r/s3/aws4_request,SignedHeaders=host;x-amz-content-sha256;x-amz-date,Signature=" ++
+    edgeSpecSig
+
+def ctxEdge : Ctx :=
+  { http2 := false, authority := none, method := b!"GET", path := b!"/bkt/k", qs := [], hs := edgeHeaders edgeAuthValue,
+    body := [], bodyOnce := true, contentLength := none, decodedContentLength := none }
+
+/-- the edge blanks do not reach the canonical request: the specified signature is that of the request without them -/
+theorem edge_blank_spec_signature_unchanged :
+    edgeSpecSig = SigV4Spec.signature shaId hmacMsg b!"secret" b!"20130524T000000Z" ⟨b!"20130524", b!"r", b!"s3"⟩
+      { edgeSpecRequest with
+        headers := [(b!"host", b!"h"), (b!"x-amz-content-sha256", b!"UNSIGNED-PAYLOAD"), (b!"x-amz-date", b!"20130524T000000Z")] } := by
+  decide +kernel
+
+/-- the request signed as the specification says is ACCEPTED by the model of the repaired code
+    (before d453cd3: `.err .XAmzContentSHA256Mismatch`, and `.err .InvalidRequest` with the blanks around `x-amz-date` alone) -/
+theorem spec_signed_edge_blank_amz_headers_accepted :
+    v4CheckHeaderAuth shaId hmacMsg (some look0) ctxEdge = .accept b!"AK" b!"r" b!"s3" := by decide +kernel
+
+/-- …and so does the executable reference verifier written from the AWS documents (it always trimmed) -/
+theorem spec_verifier_accepts_edge_blank_amz_headers :
+    SigV4Spec.verifyHeaderAuth shaId hmacMsg look0
+      { http2 := false, authority := none, method := b!"GET", rawPath := b!"/bkt/k", rawQuery := none,
+        headers := edgeHeaders edgeAuthValue, body := [], form := [], isForm := false } edgeAuthValue =
+      .accept b!"AK" b!"r" b!"s3" := by decide +kernel
 
 /-! ### presigned URLs -/
 
